@@ -335,7 +335,7 @@ def public_two_captions(k1, k2, enm, dbl):
 
 def two_rows(r1: int, gap: int, ind1: int, ind2: int, it1: bool, it2: bool, dbl: bool) -> str:
     """
-    pre: 1 <= r1 <= 12 and 1 <= gap <= 3 and 0 <= ind1 <= 6 and 0 <= ind2 <= 6
+    pre: (r1 == 1 or r1 == 6 or r1 == 12) and 1 <= gap <= 3 and 0 <= ind1 <= 6 and 0 <= ind2 <= 6
     post: _ == ""
     """
     return _two_rows(r1, gap, ind1, ind2, it1, it2, dbl)
